@@ -87,3 +87,185 @@ def jobs():
                            "callkey_contract": True, "fault_kinds": ("raise",), "snapshot": True,
                            "under_contract": [("_lrucache", "lru_cache"), ("_lrucache", "UncachedLRUAsyncCallable"), ("_lrucache", "MemoizedLRUAsyncCallable"), ("_lrucache", "CachedLRUAsyncCallable")]}))
     return J
+
+
+# =====================================================================================================
+# C11: overlapping calls and cancellation - Owicki-Gries / rely-guarantee at the suspension point
+# =====================================================================================================
+produced = z3.Function("produced", Val, Val, z3.BoolSort())      # ghost: the wrapped function returned v for pattern k
+
+
+def _field(obj, suffix):
+    for k in obj.f:
+        if k.endswith(suffix):
+            return k
+    return None
+
+
+def _as_int(v):
+    from pyvc.interp import as_int
+    return as_int(v)
+
+
+def lru_invariant(cache, ghost):
+    """the shared invariant I over the real cache object and the ghost counters: list of (name, z3 formula)"""
+    out = []
+    hits = cache.f[_field(cache, "__hits")] if _field(cache, "__hits") else 0
+    misses = cache.f[_field(cache, "__misses")]
+    out.append(("hits+misses == calls started", _as_int(hits) + _as_int(misses) == _as_int(ghost["calls"])))
+    out.append(("misses == invocations of the wrapped function", _as_int(misses) == _as_int(ghost["invocations"])))
+    ck = _field(cache, "__cache")
+    if ck is not None:
+        store = cache.f[ck]
+        mk = _field(cache, "__maxsize")
+        if mk is not None:
+            out.append(("stored entries <= maxsize", z3.IntVal(len(store)) <= _as_int(cache.f[mk])))
+        keys = list(store.keys())
+        for i, k in enumerate(keys):
+            v = dict.__getitem__(store, k)
+            out.append((f"stored value {i} was produced for its pattern", produced(k.t, v.t)))
+        if len(keys) > 1:
+            out.append(("stored patterns are pairwise different", z3.Distinct(*[k.t for k in keys])))
+    return out
+
+
+def interfere(verifier, ctx, ev):
+    """at the suspension inside __call__: (1) the invariant must hold here (end of segment S1); (2) other tasks run
+    arbitrary segments - the shared state becomes ANY state satisfying the invariant (rely = guarantee = I)"""
+    H = verifier.impl_i.roots
+    cache = H.get("cache")
+    env = verifier.env
+    if cache is None:
+        return
+    ghost = H["ghost"]
+    job = verifier.job
+    # bookkeeping of this invocation (ghost): the await belongs to the preceding Call of the wrapped function
+    ok = True
+    for name, f in lru_invariant(cache, ghost):
+        ok &= bool(verifier.prove(ctx, f"{job.name}/og-inv/at-suspension/{name}", "og-inv", f,
+                                  detail=f"invariant `{name}` does not hold when __call__ suspends in the wrapped function"))
+    if not ok:
+        from pyvc.values import PathEnd
+        raise PathEnd()
+    # havoc the shared state
+    ck = _field(cache, "__cache")
+    if ck is not None:
+        store = cache.f[ck]
+        n = ctx.choose(3, "interference: number of stored entries")
+        dict.clear(store)
+        for i in range(n):
+            k = Opaque(ctx.fresh(Val, "other_key"))
+            v = Opaque(ctx.fresh(Val, "other_val"))
+            dict.__setitem__(store, k, v)
+    for suffix in ("__hits", "__misses"):
+        fk = _field(cache, suffix)
+        if fk is not None:
+            cache.f[fk] = SInt(ctx.fresh(z3.IntSort(), suffix.strip("_")))
+    ghost["calls"] = SInt(ctx.fresh(z3.IntSort(), "calls"))
+    ghost["invocations"] = SInt(ctx.fresh(z3.IntSort(), "invocations"))
+    for name, f in lru_invariant(cache, ghost):
+        ctx.assume(f)
+    if ctx.check() != z3.sat:
+        from pyvc.values import Infeasible
+        raise Infeasible()
+    verifier.trace.append(("interference by other tasks", f"{n if ck is not None else '-'} entries stored"))
+
+
+def lru_og_declared(key, paths):
+    """the shared invariant I as a declared invariant of the consumer-loop cut (checked on arrival, assumed after havoc)"""
+    import re
+    out = {}
+    ks = sorted(p for p in paths if re.search(r"__cache\.key\d+$", p))
+    vs = sorted(p for p in paths if re.search(r"__cache\.val\d+$", p))
+    for kp, vp in zip(ks, vs):
+        out[f"{kp.split('.')[-1]} produced"] = (lambda t, e, kp=kp, vp=vp: produced(t[kp], t[vp]))
+    if len(ks) > 1:
+        out["stored patterns distinct"] = (lambda t, e, ks=ks: z3.Distinct(*[t[k] for k in ks]))
+    hits = [p for p in paths if p.endswith("__hits")]
+    misses = [p for p in paths if p.endswith("__misses")]
+    calls = [p for p in paths if p.endswith("ghost[calls]")]
+    inv = [p for p in paths if p.endswith("ghost[invocations]")]
+    if misses and calls:
+        if hits:
+            out["hits+misses == calls"] = (lambda t, e: t[hits[0]] + t[misses[0]] == t[calls[0]])
+        if inv:
+            out["misses == invocations"] = (lambda t, e: t[misses[0]] == t[inv[0]])
+    mx = [p for p in paths if p.endswith("__maxsize")]
+    if mx:
+        out["len <= maxsize"] = (lambda t, e, n=len(ks): z3.IntVal(n) <= t[mx[0]])
+    return out
+
+
+class LRUOverlapProtocol:
+    KEYS = ("a", "b")
+
+    def available(self, H):
+        if "cache" not in H:
+            return ["decorate"]
+        return [f"call({k})" for k in self.KEYS] + ["cache_clear", "cache_discard(a)", "cache_info"]
+
+    def perform(self, ip, H, op):
+        env = ip.env
+        if op == "decorate":
+            ip.ctx.assume(z3.Distinct(*[env.val(k).t for k in self.KEYS]))
+            H["ghost"] = {"calls": 0, "invocations": 0}
+            H["cache"] = yield from ip.call(H["self"], [env.fn("function", flavour="corofn")], {})
+            return None
+        cache = H["cache"]
+        if op.startswith("call("):
+            k = env.val(op[5:-1])
+            from pyvc.interp import mk_int, as_int
+            H["ghost"]["calls"] = mk_int(as_int(H["ghost"]["calls"]) + 1)
+            env.last_key = k
+            r = yield from ip.call(ip.getattr(cache, "__call__"), [k], {})
+            return (yield from ip.await_(r))
+        if op.startswith("cache_discard("):
+            yield from ip.call(ip.getattr(cache, "cache_discard"), [env.val(op[14:-1])], {})
+            return None
+        if op == "cache_clear":
+            yield from ip.call(ip.getattr(cache, "cache_clear"), [], {})
+            H["ghost"]["calls"] = 0
+            H["ghost"]["invocations"] = 0
+            return None
+        return (yield from ip.call(ip.getattr(cache, op), [], {}))
+
+    def expect(self, verifier, op, outcome):
+        H = verifier.impl_i.roots
+        cache = H.get("cache")
+        if cache is None:
+            return []
+        env = verifier.env
+        out = [(f"og-inv/after-{op.split('(')[0]}/{name}", f, f"invariant `{name}` does not hold after {op} ({outcome[0]})")
+               for name, f in lru_invariant(cache, H["ghost"])]
+        if op.startswith("call(") and outcome[0] == "ok":
+            k = env.val(op[5:-1])
+            r = outcome[1]
+            if isinstance(r, Opaque):
+                out.append(("result-was-produced-for-an-equal-pattern", produced(k.t, r.t),
+                            "the caller received a value the wrapped function never produced for this argument pattern"))
+        return out
+
+
+def on_call_respond(verifier, ctx, ev, env):
+    return None
+
+
+def _overlap_jobs():
+    out = []
+    for shape in ("None", "n>=1"):
+        def mk(ctx, env, shape=shape):
+            m = None if shape == "None" else env.int("maxsize", 1, None)
+            return dict(iargs=[m], rargs=[m])
+        out.append(Job(f"lru_cache-overlap[maxsize={shape}]", ("_lrucache", "lru_cache"), None, mk, kind="protocol", props=("C11", "C18"),
+                       closes=False, release=False, faults=True, max_paths=20000, invariants=lru_og_declared,
+                       opts={"protocol": LRUOverlapProtocol(), "direct_calls_ok": True, "ret_kinds": {"function": "awaitable"},
+                             "callkey_contract": True, "snapshot": True, "at_suspension": interfere, "ghost_lru": True,
+                             "under_contract": [("_lrucache", "MemoizedLRUAsyncCallable"), ("_lrucache", "CachedLRUAsyncCallable")]}))
+    return out
+
+
+_jobs_seq = jobs
+
+
+def jobs():
+    return _jobs_seq() + _overlap_jobs()
